@@ -21,10 +21,10 @@ vars == <<cl, node, disk, app, net, hist, act>>
 ----------------------------------------------------------------------------
 EmptyDisk == [hs |-> NoHS, snap |-> NoSnap, cidx |-> 0, cterm |-> 0, ents |-> <<>>]
 IdleApp == [phase |-> "idle", rd |-> NoReady, appendQ |-> <<>>, applyQ |-> <<>>, appliedDurable |-> 0,
-            inc |-> 0, lastConfIdx |-> 0, appConf |-> EmptyConf, created |-> FALSE]
+            inc |-> 0, lastConfIdx |-> 0, appConf |-> EmptyConf, created |-> FALSE, sd |-> EmptyDisk]
 
 NoAct == [name |-> "Init", node |-> 0, inc |-> 0, ret |-> "ok", panic |-> "", pre |-> DownNode,
-          preDisk |-> EmptyDisk, msg |-> BaseMsg, sent |-> <<>>, stepped |-> <<>>, ents |-> <<>>,
+          preDisk |-> EmptyDisk, preSD |-> EmptyDisk, msg |-> BaseMsg, sent |-> <<>>, stepped |-> <<>>, ents |-> <<>>,
           rd |-> NoReady, pid |-> 0, psz |-> 0, rid |-> 0, to |-> 0, k |-> 0, keep |-> FALSE, det |-> TRUE]
 
 Cfg(i) == cl.nodes[i]
@@ -201,11 +201,13 @@ HistNext(h, a, i, pre, post, preD, postD) ==
       \* for as long as the leader's applied index stands still (the hypothesis of the
       \* property: "a leader whose log cannot advance")
       ua == h.uncAcc[i]
-      accepted == IF a.name \in {"Propose", "ProposeConfChange"} /\ a.ret = "ok" /\ pre.up /\ pre.role = "L"
-                  THEN PayloadBytes(post.uents) - PayloadBytes(pre.uents)
-                  ELSE IF a.name = "Deliver" /\ a.msg.type = "Prop" /\ pre.up /\ pre.role = "L"
-                          /\ LastIndex(post, postD) > LastIndex(pre, preD)
-                       THEN PayloadBytes(a.msg.entries) ELSE 0
+      \* payload bytes of the entries the leader appended to its own log in this step
+      grew == pre.up /\ up /\ pre.role = "L" /\ post.role = "L" /\ pre.term = post.term
+              /\ LastIndex(post, postD) > LastIndex(pre, preD)
+      accepted == IF grew /\ (a.name \in {"Propose", "ProposeConfChange"} \/ (a.name = "Deliver" /\ a.msg.type = "Prop"))
+                  THEN LET lo == LastIndex(pre, preD) + 1 hi == LastIndex(post, postD)
+                       IN  PayloadBytes([k \in 1..(hi - lo + 1) |-> EntryAt(post, postD, lo + k - 1)])
+                  ELSE 0
       ua0 == [ua EXCEPT !.prevBytes = ua.bytes, !.prevValid = ua.valid]
       uncAcc1 ==
         IF ~up \/ post.role # "L" THEN [h.uncAcc EXCEPT ![i] = [bytes |-> 0, lastAcc |-> 0, applied |-> 0, valid |-> FALSE, prevBytes |-> 0, prevValid |-> FALSE]]
